@@ -52,7 +52,7 @@ DUP_PATHS = {
     "cpp": ("services-equal-in-snake-case", 'version: "3"\nstruct A { x @0: u8, }\nservice FooBar @0 { method get(A) @0 returns A, }\nservice foo_bar @1 { method get(A) @0 returns A, }\n'),
 }
 
-DIR_STATES = ("empty", "stale-output", "unrelated", "stale-h", "subdir", "missing", "missing-nested", "same-but-lf")
+DIR_STATES = ("empty", "stale-output", "unrelated", "stale-h", "subdir", "missing", "missing-nested", "same-but-lf", "same-size-garbage", "same-but-one-byte")
 
 
 def make_dir_state(root, state, future_names):
@@ -74,6 +74,19 @@ def make_dir_state(root, state, future_names):
             os.makedirs(os.path.dirname(p), exist_ok=True)
             with open(p, "w", newline="") as f:
                 f.write(text.replace("\r\n", "\n") if "\r\n" in text else text.replace("\n", "\r\n"))
+    elif state in ("same-size-garbage", "same-but-one-byte"):
+        # an earlier output of exactly the size of the new one: other bytes throughout, or one other byte in the middle
+        for n, text in (future_names if isinstance(future_names, dict) else {}).items():
+            p = os.path.join(out, n)
+            os.makedirs(os.path.dirname(p), exist_ok=True)
+            raw = bytearray(text.encode("utf-8"))
+            if state == "same-size-garbage":
+                raw = bytearray(b"#" * len(raw))
+            elif raw:
+                k = len(raw) // 2
+                raw[k] = ord("#") if raw[k] != ord("#") else ord("%")
+            with open(p, "wb") as f:
+                f.write(bytes(raw))
     elif state == "unrelated":
         with open(os.path.join(out, "notes.txt"), "w") as f:
             f.write("keep me\n")
@@ -279,7 +292,7 @@ def make_worker(tier):
             root = tempfile.mkdtemp(prefix="fcpmc-c10-")
             try:
                 future = sorted(expected_files(gen_name, GOOD["can1"], root))
-                if dstate == "same-but-lf":
+                if dstate in ("same-but-lf", "same-size-garbage", "same-but-one-byte"):
                     future = raw_files(gen_name, text, root)
                 out = make_dir_state(root, dstate, future)
                 before = snapshot(out)
